@@ -397,7 +397,8 @@ def views_and_copies_stream(ctx):
                     if how == "deepcopy":
                         op = r.choice(["occ-sub", "comp-sub", "append", "pop", "assign"])
                     else:
-                        op = r.choice(["append", "insert", "pop", "del", "replace", "iadd", "imul"])
+                        op = r.choice(["append", "insert", "pop", "del", "replace", "iadd", "imul", "remove", "add", "mul",
+                                       "queries"])
                     ff = f or (r.choice(rep_fields) if rep_fields and op not in ("comp-sub",) else None)
                     if op == "comp-sub" or ff is None:
                         if not comp_fields:
@@ -437,6 +438,24 @@ def views_and_copies_stream(ctx):
                             lst += [items]
                         elif op == "imul":
                             lst *= 2
+                        elif op == "remove":
+                            if not lst:
+                                continue
+                            lst.remove(lst[r.randrange(len(lst))])
+                        elif op == "add":
+                            _new = lst + [items]                     # (an expression: what it does to `tgt` is tgt's business)
+                            len(_new)
+                        elif op == "mul":
+                            _new = lst * 2
+                            len(_new)
+                        elif op == "queries":
+                            olst = getattr(other, ff["name"])
+                            _ = (lst == olst, lst != olst, items in lst, lst.count(items), len(lst), list(lst), str(lst), repr(lst))
+                            try:
+                                _ = (lst < olst, lst <= olst, lst > olst, lst >= olst)
+                                lst.index(items)
+                            except Exception:
+                                pass
                         elif op == "assign":
                             setattr(tgt, ff["name"], [items])
                 except Exception:
